@@ -36,7 +36,7 @@ fn main() {
                 match m { Match::None => "none".into(), Match::Ignore(g) => format!("ignore:{}", g.original()), Match::Whitelist(g) => format!("whitelist:{}", g.original()) }
             }}
         };
-        writeln!(cases, "{}\t{}\t{}\t{}\t{}", root, if is_dir {1} else {0}, mode, path, lines.join("\x1f")).unwrap();
+        writeln!(cases, "G\t{}\t{}\t{}\t{}\t{}", root, if is_dir {1} else {0}, mode, path, lines.join("\x1f")).unwrap();
         writeln!(outs, "{}", out).unwrap();
     }
 }
